@@ -182,20 +182,20 @@ Definition pre : list (hev CFS) :=
 Definition drain (t : N) (order : list (N * Z)) : list (hev CFS) :=
   [CRing 0 CqNew; CRing 0 (Sync t); CRing 0 (Next t order); CRing 0 (Next t order); CRing 0 (Next t order); CFs (x_dump 0)].
 Example c18_nonvacuous :
-  crun 1 (pre ++ drain 100 [(11, 2%Z); (12, 3%Z)]) =
+  crun 1 None (pre ++ drain 100 [(11, 2%Z); (12, 3%Z)]) =
     [(5, [0%Z], []); (0, [0%Z], []); (1, [1%Z], []); (1, [1%Z], []); (1, [0%Z], []); (2, [2%Z], []);
      (6, [], []); (3, [2%Z], []); (4, [11%Z; 2%Z], []); (4, [12%Z; 3%Z], [0; 5; 6]); (4, [], []); (5, [3%Z], [0; 5; 6])] /\
-  crun 1 (pre ++ drain 100 [(12, 0%Z); (11, 2%Z)]) =
+  crun 1 None (pre ++ drain 100 [(12, 0%Z); (11, 2%Z)]) =
     [(5, [0%Z], []); (0, [0%Z], []); (1, [1%Z], []); (1, [1%Z], []); (1, [0%Z], []); (2, [2%Z], []);
      (6, [], []); (3, [2%Z], []); (4, [12%Z; 0%Z], []); (4, [11%Z; 2%Z], []); (4, [], []); (5, [3%Z], [0; 5; 6])] /\
-  crun 1 (pre ++ drain 99 [(11, 2%Z); (12, 3%Z)]) =
+  crun 1 None (pre ++ drain 99 [(11, 2%Z); (12, 3%Z)]) =
     [(5, [0%Z], []); (0, [0%Z], []); (1, [1%Z], []); (1, [1%Z], []); (1, [0%Z], []); (2, [2%Z], []);
      (6, [], []); (3, [0%Z], []); (4, [], []); (4, [], []); (4, [], []); (5, [0%Z], [])] /\
-  crun 1 (pre ++ [CRing 0 (Push cn); CRing 0 (Submit 50 [])] ++ drain 100 [(11, (-125)%Z); (13, 0%Z); (12, 0%Z)]) =
+  crun 1 None (pre ++ [CRing 0 (Push cn); CRing 0 (Submit 50 [])] ++ drain 100 [(11, (-125)%Z); (13, 0%Z); (12, 0%Z)]) =
     [(5, [0%Z], []); (0, [0%Z], []); (1, [1%Z], []); (1, [1%Z], []); (1, [0%Z], []); (2, [2%Z], []);
      (1, [1%Z], []); (2, [1%Z], []);
      (6, [], []); (3, [3%Z], []); (4, [11%Z; (-125)%Z], []); (4, [13%Z; 0%Z], []); (4, [12%Z; 0%Z], []); (5, [0%Z], [])] /\
-  crun 1 (pre ++ [CCrash; CFs x_crash] ++ drain 100 [(11, 2%Z); (12, 3%Z)]) =
+  crun 1 None (pre ++ [CCrash; CFs x_crash] ++ drain 100 [(11, 2%Z); (12, 3%Z)]) =
     [(5, [0%Z], []); (0, [0%Z], []); (1, [1%Z], []); (1, [1%Z], []); (1, [0%Z], []); (2, [2%Z], []);
      (6, [], []); (5, [0%Z], []);
      (6, [], []); (3, [0%Z], []); (4, [], []); (4, [], []); (4, [], []); (5, [0%Z], [])].
